@@ -233,6 +233,7 @@ class H2(Case):
              "bath._row_degeneracy -> dummy (not the subject of H2)")
     functions = ("Bath.__init__", "operators.commutator", "operators.acommutator")
     validate = False           # random points do not satisfy the eigen-equations; replay goes through the real LAPACK
+    presearch_attempts = 0     # instances with the eigen-equations fixed to random values are never satisfiable
 
     def __init__(self, variant):
         self.variant = variant
